@@ -180,18 +180,81 @@ def r12(F):
     return r
 
 
+VERBATIM = ("::deref", "::as_ref", "::borrow", "::as_str", "::clone", "::as_bytes", "::to_string", "::to_owned", "::into", "::branch",
+            "::from_residual", "::must_use", "Arguments::new", "Argument::new_display", "::format")
+
+
 def r12b(F):
-    r = RuleResult("R12b", "nothing is written after a YAML document",
-                   "in YamlConverter::write no write to the output follows the serializer call: a line added after the document becomes "
-                   "content of a trailing `|+` block scalar (a final string ending in two newlines is read back with three)", floor=1)
+    r = RuleResult("R12b", "the YAML text is the serializer's document, nothing more and nothing less",
+                   "YamlConverter::write hands the value to serde_yaml and writes exactly what it produced: no write follows "
+                   "to_writer, and a document obtained with to_string reaches the output unchanged (no trim / replace on the way, "
+                   "no second write): the end of a YAML document is significant -- a blank line added after it becomes content of a "
+                   "trailing `|+` block scalar, trimming it removes content of one", floor=1)
     fn = F.fn("ucglib::convert::yaml::YamlConverter::write")
-    ser = [(b, t) for b, t in fn.calls() if callee(t).startswith("serde_yaml::") and "to_writer" in callee(t)]
+    ser = [(b, t) for b, t in fn.calls() if callee(t).startswith("serde_yaml::") and ("to_writer" in callee(t) or "to_string" in callee(t))]
     need(len(ser) == 1, "YamlConverter::write: serializer call not found")
-    after = cfg.reachable(fn, ser[0][1]["t"])
+    sb, st = ser[0]
+    after = cfg.reachable(fn, st["t"])
     writes = [(b, t) for b, t in fn.calls() if b in after and callee(t).endswith(("::write_fmt", "::write_all", "::write_str", "::write"))]
-    r.inst("yaml:no-trailing-write", fn.where(ser[0][0]), not writes,
-           "the document ends with the serializer's own newline" if not writes else
-           "%d write(s) after serde_yaml::to_writer (first at %s): the YAML text is no longer the serializer's document" % (len(writes), fn.where(writes[0][0])))
+    if "to_writer" in callee(st):
+        r.inst("yaml:no-trailing-write", fn.where(sb), not writes,
+               "the document ends with the serializer's own newline" if not writes else
+               "%d write(s) after serde_yaml::to_writer (first at %s): the YAML text is no longer the serializer's document" % (len(writes), fn.where(writes[0][0])))
+        return r
+    o = Origins(fn)
+    ok = len(writes) == 1
+    why = "the serialised document is written once, unchanged"
+    if not writes:
+        ok, why = False, "the serialised document is never written"
+    elif len(writes) > 1:
+        why = "%d writes after serde_yaml::to_string: something is added to the document" % len(writes)
+    else:
+        b, t = writes[0]
+        labs = set()
+        for a in t["args"][1:]:
+            labs |= o.at(a, b)
+        cs = calls_in(labs)
+        if callee(st) not in cs:
+            ok, why = False, "what is written does not come from the serialiser"
+        else:
+            extra = sorted(c for c in cs if c != callee(st) and not c.endswith(VERBATIM))
+            tmpl = None
+            if callee(t).endswith("write_fmt"):
+                # writeln!/write! with literal text around the placeholder adds to the document
+                for bb, tt in fn.calls():
+                    if callee(tt) == "core::fmt::Arguments::new" and cfg.dominates(fn, bb, b):
+                        from .c05 import template_of
+                        tmpl = template_of(fn, bb)
+            if extra:
+                ok, why = False, "the document passes through %s before it is written: its end is significant" % ", ".join(x.split("::")[-1] for x in extra)
+            elif tmpl is not None and tmpl.replace(b"\x00", b"") != b"":
+                ok, why = False, "the document is written with extra text %r around it" % tmpl.replace(b"\x00", b"{}").decode()
+    r.inst("yaml:no-trailing-write", fn.where(sb), ok, why)
+    return r
+
+
+def r64v(F):
+    r = RuleResult("R64v", "the value handed to the converters keeps every field and element",
+                   "the lowering of a VM value to the converters' Val (impl From<&Value> for Val) copies every field of a tuple and "
+                   "every element of a list: each loop iteration pushes (no skip by name or kind), in order", floor=2)
+    cands = [n for n in F.fns if n.startswith("ucglib::build::opcode::convert::") and "From<&" in n and "for ucglib::build::ir::Val" in n and n.endswith("::from")]
+    need(len(cands) == 1, "impl From<&Value> for Val not found (%s)" % cands)
+    fn = F.fn(cands[0])
+    loops = cfg.natural_loops(fn)
+    need(len(loops) >= 2, "expected the tuple and the list loop in From<&Value> for Val")
+    for k, (h, body) in enumerate(sorted(loops.items())):
+        nexts = [b for b in body if fn.term(b)["k"] == "call" and callee(fn.term(b)).endswith("::next")]
+        need(nexts, "iterator not found in a loop of From<&Value> for Val")
+        some = None
+        for sb, st in util.enum_switches(fn, fn.term(nexts[0])["dest"]["l"]):
+            some = cfg.switch_edge(st, variant="Some")
+        need(some is not None, "Some edge not found")
+        adds = {b for b, t in fn.calls() if callee(t) == "alloc::vec::Vec::push" and b in body}
+        dropped = h in cfg.reachable(fn, some, removed=adds)
+        ok = bool(adds) and not dropped
+        r.inst("lowering:loop#%d:every-item" % k, fn.where(h), ok,
+               "every iteration pushes the converted item" if ok else
+               "an item can be skipped while a value is lowered for output: a field or element silently disappears from every format")
     return r
 
 
@@ -226,4 +289,4 @@ def r70(F):
 
 from . import c14 as _c14
 
-RULES = [r10, r11, r12, r12b, r64, r70, _c14.r49t]
+RULES = [r10, r11, r12, r12b, r64, r64v, r70, _c14.r49t]
